@@ -656,4 +656,19 @@ theorem send_session_exact_all (peer loc : SockAddr) (wss : List (List WRes)) (c
   | spin => left; exact ⟨h4 (by simp), by rw [h1]; exact List.take_prefix _ _⟩
 
 
+
+theorem acc_readyWs (s : Sess) (hf : Fifo s.p) : Acc s s.readyWs := by
+  unfold Sess.readyWs
+  split
+  · exact ⟨hf, rfl, rfl⟩
+  · exact acc_loop _ s hf
+
+
+/-- a turn that changes nothing and says `Continue` repeats until the iteration cap -/
+theorem loop_fixed_point (s : Sess) (h : s.turn = some (s, .cont)) : ∀ n, Sess.loop n s = (s, .loopCap) := by
+  intro n
+  induction n with
+  | zero => rfl
+  | succ k ih => unfold Sess.loop; rw [h]; simpa using ih
+
 end Sozu.Pipe
